@@ -445,7 +445,6 @@ func derivesFromFieldLoad(v ssa.Value, typ, field string) bool {
 	return false
 }
 
-
 // publishedIsCanonical: the published bytes are the certificate itself - for SSH the Marshal() of the certificate
 // value returned by the signing call, for X.509 the DER slice the signing call returned.
 func publishedIsCanonical(kind string, arg ssa.Value, sign *ssa.Call) bool {
